@@ -53,6 +53,9 @@ def build_transparent(r, name, level):
         lines.append("    %s\n    %s," % (attr, decl))
         tv.append((idents[i], fname, key))
     lines.insert(r.randint(0, len(lines)), "    %s," % idents[n])
+    if r.random() < 0.5:
+        # a disabled sibling makes the derives emit their catch-all panic arm; it must not swallow the transparent arms
+        lines.insert(r.randint(0, len(lines)), "    #[strum(disabled)]\n    Disabled%s%s," % (name, r.choice(["", "(u8)", " { x: u8 }"])))
     lines.insert(r.randint(0, len(lines)), "    #[strum(to_string = \"fixed\")]\n    %s(u8)," % idents[n + 1])
     style = r.choice([None, "snake_case", "UPPERCASE"])
     src = "#[derive(Debug, Clone, %s)]\n" % ", ".join("strum::" + d for d in ders)
